@@ -64,11 +64,11 @@ Theorem array_modifiers_need_both_limits : forall (mul amul : Q -> Q -> Q) (cast
 Proof. exact run_array_none. Qed.
 Print Assumptions array_modifiers_need_both_limits.
 
-(* the band literals of the regenerated source are "0.7", "1.5" (and the sentinel "1.0"), and denote
-   the doubles the specification uses *)
+(* the distinct float literals of the regenerated terms (in order of first appearance) are "1.5", "0.7" and
+   the sentinel "1.0", they denote the doubles the specification uses, and they are the terms' only constants *)
 Theorem band_consts :
-  get_threshold_consts = [("0.7"%string, band_lo); ("1.5"%string, band_hi); ("1.0"%string, sentinel_value)] /\
-  stmt_consts get_threshold_prog = map snd get_threshold_consts.
+  get_threshold_consts = [("1.5"%string, band_hi); ("0.7"%string, band_lo); ("1.0"%string, sentinel_value)] /\
+  prog_consts get_threshold_prog = map snd get_threshold_consts.
 Proof. exact band_consts_lemma. Qed.
 Print Assumptions band_consts.
 
